@@ -9,6 +9,7 @@ import (
 	"testing"
 
 	"github.com/rulego/streamsql/utils/simrt"
+	"github.com/rulego/streamsql/window"
 )
 
 var (
@@ -70,6 +71,9 @@ func strip(r *Result, c *Case) {
 }
 
 func TestSim(t *testing.T) {
+	if os.Getenv("VERIF_WINDEBUG") != "" {
+		window.EnableDebug = true
+	}
 	if *fProp == "" && *fReplay == "" {
 		t.Skip("no -sim.prop")
 	}
